@@ -18,6 +18,9 @@ CHECKS = {
  "C11": dict(design="§5 C11", engine="XH",
              technique="CrossHair (z3) symbolic execution of _check_for_modified_notes + the ModifiedZorgNotesEvent handler write-back over solver-chosen edit scenarios and days, judged against the statement; kernels for the first-line rewrite and the decision",
              note="stubs: clock, in-memory FS, hash = identity, json shim; old page = compiled old text (SQL round trip only in replay); scenario menus are the bound"),
+ "C05": dict(design="§5 C05", engine="XH",
+             technique="CrossHair (z3) symbolic execution of SQLRepo.add_file/_add_zids + the NewZorgNotesEvent write-back over solver-chosen page scenarios, rewritten file recompiled with the real compiler and compared field by field with the indexed notes",
+             note="stubs: in-memory FS, json shim, hash = identity, clock, SQL session/PageConverter; the ORM/SQLite round trip is not claimed (replay only); scenario menus are the bound"),
 }
 NA = {
  "C13": "crash points between external effects (SQLite transactions, OS file writes) cannot be made symbolic: the effects are C-level/ORM internals; with them concrete a symbolic crash index is realised at the first effect, which is enumeration of faulted runs, a different technique (DESIGN.md §8)",
